@@ -71,6 +71,11 @@ fn main() {
         std::process::exit(exitcode::DATAERR)
     });
 
+    // Check consistency of imported data (invalid references would make the solver panic)
+    if let Err(e) = cdecao::io::check_data_consistency(&participants, &courses) {
+        error!("Inconsistent input data: {}", e);
+        std::process::exit(exitcode::DATAERR);
+    }
     // In debug build: Check consistency of imported data
     if cfg!(debug_assertions) {
         cdecao::io::assert_data_consitency(&participants, &courses);
